@@ -51,11 +51,12 @@ fn judge(steps: &[Step], stats: &mut Stats) -> Vec<(String, String, String)> {
     fails
 }
 
-fn draw_steps(rng: &mut Rng, stats: &mut Stats) -> Vec<Step> {
+fn draw_steps(rng: &mut Rng, index: u64, stats: &mut Stats) -> Vec<Step> {
     let n = 2 + rng.usize(19);
     (0..n)
         .map(|k| {
-            let calls = *rng.pick(&[1usize, 2, 3, 10, 50]);
+            // every 40th history contains one long compilation: a counter kept in too narrow a type wraps
+            let calls = if index % 150 == 149 && k == 1 { 35_000 } else { *rng.pick(&[1usize, 2, 3, 10, 50]) };
             let limits: Vec<u64> = (0..rng.usize(6)).map(|_| draw_limit(rng)).collect();
             let mut item = Item::simple(&format!("ids{calls}-{k}"), &id_program_ordered(calls, &limits, rng.chance(1, 2)));
             item.fmt = PFmt { compressed: rng.chance(1, 3), precision: *rng.pick(&[0usize, 5, 10, 20]) };
@@ -97,7 +98,7 @@ impl Prop for C06T {
     }
     fn run(&self, seed: u64, index: u64, _tier: Tier, stats: &mut Stats) -> Vec<Violation> {
         let mut rng = Rng::new(seed);
-        let steps = draw_steps(&mut rng, stats);
+        let steps = draw_steps(&mut rng, index, stats);
         stats.inc("runs");
         let fails = judge(&steps, stats);
         let mut d = vcommon::Digest::new();
